@@ -37,6 +37,7 @@ fn table() -> Vec<Entry> {
     vec![
         entry!("C01", c01, "exploration"),
         entry!("C02", c02, "exploration"),
+        entry!("C03", c03, "exploration"),
         entry!("C05", c05, "exploration"),
         entry!("C07", c07, "exploration"),
         entry!("C08", c08, "exploration"),
@@ -46,6 +47,7 @@ fn table() -> Vec<Entry> {
         entry!("C13", c13, "exploration"),
         entry!("C14", c14, "exploration"),
         entry!("C15", c15, "exploration"),
+        entry!("C20", c20, "exploration"),
     ]
 }
 
@@ -55,6 +57,10 @@ fn main() {
         usage();
     }
     let prop = args[1].clone();
+    // internal sub-commands (child processes of fault-injection checks)
+    if prop.starts_with("--") {
+        std::process::exit(checks::child_main(&args[1..]));
+    }
     let mut tier = Tier::Quick;
     let mut seed: u64 = std::env::var("VERIF_SEED")
         .ok()
@@ -94,11 +100,6 @@ fn main() {
             "thorough" => tier = Tier::Thorough,
             _ => {}
         }
-    }
-
-    // internal sub-commands (child processes of fault-injection checks)
-    if prop.starts_with("--") {
-        std::process::exit(checks::child_main(&args[1..]));
     }
 
     let table = table();
